@@ -271,7 +271,11 @@ PPL::MIP_Problem::is_satisfiable() const {
 #if PPL_NOISY_SIMPLEX
         mip_recursion_level = 0;
 #endif // PPL_NOISY_SIMPLEX
-        if (is_mip_satisfiable(relaxed.lp, relaxed.i_vars, p)) {
+        // NOTE: branch-and-bound adds the branching constraints to the
+        // problem it is applied to: let it work on a copy, as in solve().
+        MIP_Problem lp_copy(relaxed.lp, Inherit_Constraints());
+        PPL_ASSERT(lp_copy.integer_space_dimensions().empty());
+        if (is_mip_satisfiable(lp_copy, relaxed.i_vars, p)) {
           x.last_generator = p;
           x.status = SATISFIABLE;
         }
